@@ -266,7 +266,8 @@ def mismatches(sc, obs, fin, recs):
             fa = finish.get(aid)
             if fa is not None and fa["state"] == "done":
                 if S.near(t, F(fa["finish"])):
-                    if rem != 0:
+                    # (a residue of double rounding, 1e-14 of the amount, is left by cpu/optim:Full: zero within the 1e-9 used everywhere)
+                    if abs(rem) > 1e-9 * max(1.0, abs(float(F(sc["acts"][aid - 1]["amount"])))):
                         bad.append("t=%.17g activity %d completes with remaining work %.17g" % (t, aid, rem))
                 elif t < fa["finish"] and rem <= 0:
                     bad.append("t=%.17g activity %d: remaining work %.17g before its completion at %.17g" % (t, aid, rem, fa["finish"]))
@@ -286,12 +287,18 @@ def mismatches(sc, obs, fin, recs):
         o = S.find_obs(obs, t)
         if o is None or o.get("_kind") != "OBS":
             continue            # a date at which the reference has no step (nothing observable changes there)
+        # two clock advances a rounding error apart (3.999999999999999 then 4: completions, then the profile point) are one step
+        # of the exact reference: only the first one is compared with it
+        if o.get("_seen"):
+            continue
+        o["_seen"] = True
         n += 1
         for sid, rem in r["rem"].items():
             aid = int(sid)
             a = sc["acts"][aid - 1]
             # (I/Os, from the first step of the reference that does not move whole bytes on: see io_slack)
             tol = io_bytes(o["k"]) if t0 is not None and a["kind"] == "io" and S.frac(o["t"]) >= t0 else F(0)
+            tol = max(tol, F(1, 10 ** 9))       # (residues of double rounding at a completion: 1e-14)
             if not S.close(rem, S.frac(o["rem"][aid - 1]), absolute=tol) and o["was"][aid - 1] in ("run", "susp", "lat"):
                 bad.append("t=%.17g activity %d (%s): remaining %.17g, reference %s = %.17g" %
                            (t, aid, a["kind"], rem, S.frac(o["rem"][aid - 1]), float(S.frac(o["rem"][aid - 1]))))
@@ -302,7 +309,10 @@ def mismatches(sc, obs, fin, recs):
                 bad.append("t=%.17g host %d: load %.17g exceeds the capacity %s of the elapsed interval (cores x peak speed x availability)" %
                            (t, h + 1, r["hload"][h + 1], S.frac(o["hcap"][h])))
             # current capacity: the availability scale and the capacity read at this date are those of the reference
-            if not S.close(r["avail"][h + 1], S.frac(o["hscale"][h])) or not S.close(r["cap"][h + 1], S.frac(o["hcapnow"][h])):
+            # (only at dates the clock reached exactly: a date such as 3.9999999999999991 for 4 is matched with the reference step
+            # of the interval it closes, whose profile point may or may not be applied yet)
+            if float(S.frac(o["t"])) == float(t) and \
+               (not S.close(r["avail"][h + 1], S.frac(o["hscale"][h])) or not S.close(r["cap"][h + 1], S.frac(o["hcapnow"][h]))):
                 bad.append("t=%.17g host %d: availability %.17g, capacity %.17g, reference %s and %s" %
                            (t, h + 1, r["avail"][h + 1], r["cap"][h + 1], S.frac(o["hscale"][h]), S.frac(o["hcapnow"][h])))
         for l in range(nl):
